@@ -79,6 +79,20 @@ def run_case(ctx, k, rng):
             if len(rows) >= 3 and np.any(rows[:, :2] == -1):
                 ctx.mark_nontrivial(A, B)
         digests.append(rows[:, :2].tolist() if kind == "bn" else None)
+        if ok and rng.random() < 0.3:
+            # a result that is kept (matchings of a pairwise loop collected in a list) must stay what it was when later calls are
+            # made - here on another pair with the same numbers of points
+            try:
+                ctx.ran(1)
+                kept = rows          # the very array that was returned
+                before = np.array(kept, copy=True)
+                A2 = A[rng.permutation(len(A))] + 0.37 * sc if len(A) else A
+                B2 = B[::-1] * 1.5 if len(B) else B
+                fn(A2, B2, matching=True)
+                ctx.check("%s: a returned matching is unchanged by later calls" % kind, np.array_equal(np.asarray(kept), before),
+                          changed_rows=int(np.sum(np.any(np.asarray(kept) != before, axis=1))) if np.shape(kept) == before.shape else None)
+            except Exception as e:
+                ctx.exception("%s: a returned matching is unchanged by later calls" % kind, e)
     # container of the input: the same diagrams as nested lists / integer arrays must again yield certificates of the same distance
     if A.size and B.size and rng.random() < 0.25:
         isint = bool(np.all(A == np.round(A)) and np.all(B == np.round(B)) and sc < 1e9)
